@@ -85,7 +85,11 @@ C09Rules(r, f) ==
             <<"C09.total", HL(f.desc.si.total) = f.whole_frames>>,
             <<"C09.md5", f.desc.si.md5 = f.pcm_md5>>,
             <<"C09.rewrite-neutral", /\ f.fs_before = f.desc.frames_start /\ f.audio_prefix_intact /\ f.prefix_intact
-                                     /\ f.len = f.desc.frames_start + HL(f.fin.bytes)>> >>
+                                     /\ f.len = f.desc.frames_start + HL(f.fin.bytes)>>,
+            <<"C09.finished-file-can-be-walked", ~Has(f, "regen_failed")>>,
+            \* a sparse table over a very long run is short enough to compare point by point
+            <<"C09.regenerates", (Has(f, "regen") /\ ~Has(f, "regen_failed") /\ Has(f.desc, "seektable") /\ Len(f.desc.seektable) <= 20000) =>
+                  SelectSeq(f.desc.seektable, LAMBDA p : p # <<>>) = f.regen>> >>
     ELSE
     LET d == f.desc
         fr == Frames(f)
